@@ -677,7 +677,8 @@ def rule_round11(repo, rep):
     if len(inits) != 1:
         raise AnalysisError(f"serialise_subgraph: {len(inits)} definitions of the tensor collection")
     v = inits[0].value
-    ok_init = (isinstance(v, ast.Call) and str(norm(v.func)) == "dict.fromkeys") or (isinstance(v, ast.Dict) and not v.keys)
+    ok_init = (isinstance(v, ast.Call) and str(norm(v.func)) == "dict.fromkeys") or (isinstance(v, ast.Dict) and not v.keys) or (
+        isinstance(v, ast.DictComp) and isinstance(v.key, ast.Name) and len(v.generators) == 1 and str(norm(v.generators[0].target)) == v.key.id)
     rep.check(ok_init, "C17-s", gsite, f"`{str(norm(inits[0]))[:80]}` is keyed by the tensor objects", "the collection is keyed by something derived from the tensors (names): two tensors of one name collapse into one entry")
     n = 0
     for st in ast.walk(g):
